@@ -4,6 +4,7 @@
 //! reported as {"panic": msg}.
 #![allow(clippy::all)]
 pub mod vj;
+pub mod member;
 use std::io::{BufRead, Write};
 
 pub fn main_loop(run: fn(&serde_json::Value) -> serde_json::Value) {
